@@ -450,9 +450,9 @@ theorem ptonTail_end (s : Bytes) (tr : Bool) (addr : Addr) (bits : Option Nat) :
   simp [rd_drop_nil hd (Nat.le_refl _)]
 
 /-- the parser reads the eight ':'-joined groups of any address back -/
-theorem pton_full (fx : Bool) (a : Addr) :
-    ptonWith fx (joinC (a.toNats.map printGroup)) false false =
-      pure ⟨(joinC (a.toNats.map printGroup)).length, a, none, false⟩ := by
+theorem pton_full (fx : Bool) (a : Addr) (wb : Bool) :
+    ptonWith fx (joinC (a.toNats.map printGroup)) wb false =
+      pure ⟨(joinC (a.toNats.map printGroup)).length, a, setBits wb none 128, false⟩ := by
   have hlt := toNats_lt a
   have hl8 := toNats_length a
   have hne : a.toNats ≠ [] := by intro h; rw [h] at hl8; simp at hl8
@@ -487,7 +487,7 @@ theorem pton_full (fx : Bool) (a : Addr) :
   have hv6 := isV6Text_of t h58 (text_no_dot hchars)
   have hstart := v6Start_plain t c rest hc (by rw [hcn]; exact hexChar_ne_colon hn16)
   have hd : t.drop 0 = joinC ((init ++ [last]).map printGroup) := by rw [← hsplit, ht]; rfl
-  obtain ⟨ps', hloop⟩ := run_joinC_end fx t false false 8 none init last 1 0 0 none Addr.zero hd
+  obtain ⟨ps', hloop⟩ := run_joinC_end fx t wb false 8 none init last 1 0 0 none Addr.zero hd
     (by rw [← hsplit]; exact hlt) (by omega) (by omega)
   have hfuel : t.length + 2 = 1 + (joinC ((init ++ [last]).map printGroup)).length + 1 := by
     rw [← hsplit, ht]; omega
@@ -516,15 +516,15 @@ theorem storeAll_single (addr : Addr) (k v : Nat) (h : k < 8) :
   simp [storeAll, h]
 
 /-- the IPv6 loop over `L::R` -/
-theorem layout_loop (fx : Bool) (linit : List Nat) (llast : Nat) (r : List Nat)
+theorem layout_loop (fx : Bool) (wb : Bool) (linit : List Nat) (llast : Nat) (r : List Nat)
     (hall : ∀ g ∈ linit ++ [llast] ++ r, g < 65536)
     (hlen : (linit ++ [llast]).length + r.length ≤ 7) (hr : r = [] → (linit ++ [llast]).length ≤ 6) :
     ∃ ps' part,
-      v6Loop fx (layoutText (linit ++ [llast]) r) false false ((layoutText (linit ++ [llast]) r).length + 2)
+      v6Loop fx (layoutText (linit ++ [llast]) r) wb false ((layoutText (linit ++ [llast]) r).length + 2)
           { pos := 0 } =
         pure (.finish ⟨(layoutText (linit ++ [llast]) r).length,
           (linit ++ [llast]).length + 1 + (if r = [] then [0] else r).length, (linit ++ [llast]).length, part, ps',
-          storeAll Addr.zero 0 (linit ++ [llast] ++ 0 :: (if r = [] then [0] else r)), none⟩) := by
+          storeAll Addr.zero 0 (linit ++ [llast] ++ 0 :: (if r = [] then [0] else r)), setBits wb none 128⟩) := by
   generalize ht : layoutText (linit ++ [llast]) r = t
   have hlinit : ∀ g ∈ linit, g < 65536 := fun g hg => hall g (by simp [hg])
   have hllast : llast < 65536 := hall llast (by simp)
@@ -537,10 +537,10 @@ theorem layout_loop (fx : Bool) (linit : List Nat) (llast : Nat) (r : List Nat)
   have htlen : t.length = (units linit).length + (printGroup llast).length + 2 + (joinC (r.map printGroup)).length := by
     rw [htext]; simp; omega
   -- L's leading units
-  obtain ⟨⟨ps1, e1⟩, d1⟩ := run_units fx t false false 8 none _ (benign_group llast hllast _) linit
+  obtain ⟨⟨ps1, e1⟩, d1⟩ := run_units fx t wb false 8 none _ (benign_group llast hllast _) linit
     ((printGroup llast).length + 1 + 1 + ((joinC (r.map printGroup)).length + 2)) 0 0 none Addr.zero hd0 hlinit (by omega)
   -- L's last group
-  obtain ⟨e2, d2⟩ := v6_group fx t false false (1 + 1 + ((joinC (r.map printGroup)).length + 2))
+  obtain ⟨e2, d2⟩ := v6_group fx t wb false (1 + 1 + ((joinC (r.map printGroup)).length + 2))
     (0 + (units linit).length) (0 + linit.length) 8 ps1 (storeAll Addr.zero 0 linit) none llast _ d1 hllast (by omega)
   -- "::"
   have hi1 : 0 + linit.length < 8 := by omega
@@ -549,7 +549,7 @@ theorem layout_loop (fx : Bool) (linit : List Nat) (llast : Nat) (r : List Nat)
     · have := hr hre; simp at this; omega
     · have : r.length ≠ 0 := fun h => hre (List.eq_nil_of_length_eq_zero h)
       omega
-  have e3 := v6_dcolon fx t false false (1 + ((joinC (r.map printGroup)).length + 2))
+  have e3 := v6_dcolon fx t wb false (1 + ((joinC (r.map printGroup)).length + 2))
     (0 + (units linit).length + (printGroup llast).length) (0 + linit.length) llast ps1
     (storeAll Addr.zero 0 linit) none _ d2 hi1 hne7
   have d3 := (drop_cons_props d2).2.2
@@ -557,7 +557,7 @@ theorem layout_loop (fx : Bool) (linit : List Nat) (llast : Nat) (r : List Nat)
   have hp3 := (drop_cons_props d3).1
   have hb := benign_char (benign_joinC r hrr) d4 (by omega)
   have hi2 : 0 + linit.length + 1 < 8 := by omega
-  have e4 := v6_colon fx t false false ((joinC (r.map printGroup)).length + 2)
+  have e4 := v6_colon fx t wb false ((joinC (r.map printGroup)).length + 2)
     (0 + (units linit).length + (printGroup llast).length + 1) (0 + linit.length + 1) (0 + linit.length + 1) 0
     (some (0 + (units linit).length + (printGroup llast).length + 1))
     ((storeAll Addr.zero 0 linit).set (0 + linit.length) (BitVec.ofNat 16 llast) hi1) none _ d3 hi2 hb.1 hb.2
@@ -581,7 +581,7 @@ theorem layout_loop (fx : Bool) (linit : List Nat) (llast : Nat) (r : List Nat)
     have hpos : 0 + (units linit).length + (printGroup llast).length + 1 + 1 = t.length := by
       simp at htlen; omega
     have hi3 : 0 + linit.length + 1 + 1 < 8 := by omega
-    have e5 := v6_nul fx t false false 1 (0 + (units linit).length + (printGroup llast).length + 1 + 1)
+    have e5 := v6_nul fx t wb false 1 (0 + (units linit).length + (printGroup llast).length + 1 + 1)
       (0 + linit.length + 1 + 1) (0 + linit.length + 1) 0
       (some (0 + (units linit).length + (printGroup llast).length + 1 + 1))
       (storeAll Addr.zero 0 (linit ++ [llast] ++ [0])) none d4 (by omega) hi3 (by omega)
@@ -603,7 +603,7 @@ theorem layout_loop (fx : Bool) (linit : List Nat) (llast : Nat) (r : List Nat)
     have hrl : r.length = rinit.length + 1 := by rw [hrs]; simp
     have d4' : t.drop (0 + (units linit).length + (printGroup llast).length + 1 + 1)
         = joinC ((rinit ++ [rlast]).map printGroup) := by rw [← hrs]; exact d4
-    obtain ⟨ps5, e5⟩ := run_joinC_end fx t false false (0 + linit.length + 1) none rinit rlast 1
+    obtain ⟨ps5, e5⟩ := run_joinC_end fx t wb false (0 + linit.length + 1) none rinit rlast 1
       (0 + (units linit).length + (printGroup llast).length + 1 + 1) (0 + linit.length + 1 + 1)
       (some (0 + (units linit).length + (printGroup llast).length + 1 + 1))
       (storeAll Addr.zero 0 (linit ++ [llast] ++ [0])) d4' (by rw [← hrs]; exact hrr) (by omega) (by omega)
@@ -619,20 +619,19 @@ theorem layout_loop (fx : Bool) (linit : List Nat) (llast : Nat) (r : List Nat)
       simp; omega
     have hcp : 0 + linit.length + 1 = (linit ++ [llast]).length := by simp
     rw [hA2, hii, hcp]
-    simp [setBits]
 
 /-- the parser reads `L::R` back as `L ++ zeros ++ R` -/
-theorem pton_layout (fx : Bool) (a : Addr) (l r : List Nat) (hl : l ≠ []) (hlen : l.length + r.length ≤ 7)
+theorem pton_layout (fx : Bool) (a : Addr) (wb : Bool) (l r : List Nat) (hl : l ≠ []) (hlen : l.length + r.length ≤ 7)
     (hr6 : r = [] → l.length ≤ 6)
     (hsplit : a.toNats = l ++ List.replicate (8 - (l.length + r.length)) 0 ++ r) :
-    ptonWith fx (layoutText l r) false false = pure ⟨(layoutText l r).length, a, none, false⟩ := by
+    ptonWith fx (layoutText l r) wb false = pure ⟨(layoutText l r).length, a, setBits wb none 128, false⟩ := by
   have hlt := toNats_lt a
   rw [hsplit] at hlt
   have hltl : ∀ g ∈ l, g < 65536 := fun g hg => hlt g (by simp [hg])
   have hltr : ∀ g ∈ r, g < 65536 := fun g hg => hlt g (by simp [hg])
   obtain ⟨linit, llast, hls⟩ : ∃ linit llast, l = linit ++ [llast] :=
     ⟨l.dropLast, l.getLast hl, (List.dropLast_concat_getLast hl).symm⟩
-  obtain ⟨ps', part, hloop⟩ := layout_loop fx linit llast r
+  obtain ⟨ps', part, hloop⟩ := layout_loop fx wb linit llast r
     (by intro g hg; rw [← hls] at hg; simp at hg; rcases hg with hg | hg; exact hltl g hg; exact hltr g hg)
     (by rw [← hls]; exact hlen) (by rw [← hls]; exact hr6)
   rw [← hls] at hloop
